@@ -34,3 +34,41 @@ package core
 // Distinct pairs have distinct textual forms (protocol numbers are single digits today; the
 // enum would have to reach 10 entries for this lemma to need restating).
 //@ lemma[C20] idInjective: forall p1 int, c1 string, p2 int, c2 string :: 1 <= p1 && p1 <= 9 && 1 <= p2 && p2 <= 9 && idstr(p1, c1) == idstr(p2, c2) ==> p1 == p2 && c1 == c2
+
+// ---------------------------------------------------------------------------------------------
+// Well-formed payloads (C15, and the non-nil facts every later stage leans on)
+// ---------------------------------------------------------------------------------------------
+
+// okAction(id) / okProto(id): the verdicts of the identifier validators as functions of the identifier.
+//@ func (id ActionID) Validate() (err)
+//@   pure-verdict okAction
+//@   ensures[base] err == nil ==> id != ACTION_UNSUPPORTED
+
+//@ func (id ProtocolID) Validate() (err)
+//@   pure-verdict okProto
+//@   ensures[base] err == nil ==> id != PROTOCOL_UNSUPPORTED
+
+// An accepted action: non-nil, supported identifier, attributes present.
+//@ macro actionOK(a) = a != nil && okAction(a.Id) && a.Id != ACTION_UNSUPPORTED && a.Attributes != nil
+// An accepted forwarding: non-nil, supported protocol identifier, attributes present.
+//@ macro forwardingOK(f) = f != nil && okProto(f.ProtocolId) && f.ProtocolId != PROTOCOL_UNSUPPORTED && f.Attributes != nil
+
+//@ func (a *Action) Validate() (err)
+//@   ensures[base] err == nil ==> actionOK(a)
+
+//@ func (f *Forwarding) Validate() (err)
+//@   ensures[base] err == nil ==> forwardingOK(f)
+
+// An accepted payload: one accepted forwarding; every pre-action accepted; identifiers pairwise distinct.
+//@ macro actionsOK(p) = forall j int :: 0 <= j && j < len(p.PreActions) ==> actionOK(p.PreActions[j])
+//@ macro actionsDistinct(p) = forall i int, j int :: 0 <= i && i < j && j < len(p.PreActions) ==> p.PreActions[i].Id != p.PreActions[j].Id
+//@ macro payloadFieldsOK(p) = forwardingOK(p.Forwarding) && actionsOK(p) && actionsDistinct(p)
+//@ macro payloadOK(p) = p != nil && payloadFieldsOK(p)
+
+//@ func (p *Payload) Validate() (err)
+//@   loop 0 invariant[base] forall j int :: 0 <= j && j < idx ==> mapHas(visitedIDs, p.PreActions[j].Id)
+//@   loop 0 invariant[base] forall i int, j int :: 0 <= i && i < j && j < idx ==> p.PreActions[i].Id != p.PreActions[j].Id
+//@   loop 1 invariant[base] forall j int :: 0 <= j && j < idx ==> actionOK(p.PreActions[j])
+//@   ensures[base] err == nil ==> p != nil && forwardingOK(p.Forwarding)
+//@   ensures[base] err == nil ==> actionsOK(p)
+//@   ensures[base] err == nil ==> actionsDistinct(p)
